@@ -280,10 +280,56 @@ def rule_direction(ctx):
         for c in node_calls(n):
             if norm.text(c.func) == "self._payload_codec.decode":
                 found.setdefault((f"onMessage/{om.arm_of_facts(mf.at(n))}", "decode"), []).append(c)
+    krc = ctx.program.cls("autobahn.wamp.cryptobox.KeyRing")
+    sig = {"encode": krc.methods["encode"].params()[1:], "decode": krc.methods["decode"].params()[1:]}
+
+    def arg(c, what, i):
+        """the i-th parameter of KeyRing.encode/decode at call `c`, positional or by keyword"""
+        if len(c.args) > i:
+            return c.args[i]
+        nm = sig[what][i] if len(sig[what]) > i else None
+        for k in c.keywords:
+            if k.arg == nm:
+                return k.value
+        return None
     for key, want in expected.items():
         cs = found.get(key, [])
-        ok = bool(cs) and all(isinstance(c.args[0], ast.Constant) and c.args[0].value is want for c in cs)
-        ctx.ob(f"{key[0]}: {key[1]}(is_originating={want})", ok, f"{[norm.text(c.args[0]) for c in cs] or 'site not found'}", om.fn.loc())
+        flags = [arg(c, key[1], 0) for c in cs]
+        ok = bool(cs) and all(isinstance(a, ast.Constant) and a.value is want for a in flags)
+        ctx.ob(f"{key[0]}: {key[1]}(is_originating={want})", ok, f"{[norm.text(a) if a is not None else None for a in flags] or 'site not found'}", om.fn.loc())
+    # the URI a payload is sealed under / checked against is the URI of the operation itself
+    from .common import canon_text
+
+    def uri_texts(key, fn=None):
+        out = []
+        for c in found.get(key, []):
+            a = arg(c, key[1], 1)
+            out.append((canon_text(fn, a) if fn is not None and a is not None else (norm.text(a) if a is not None else None), c))
+        return out
+    pub, call_ = ctx.program.func(f"{APPSESSION}.publish"), ctx.program.func(f"{APPSESSION}.call")
+    mfe, efm = ctx.program.func(f"{BASESESSION}._message_from_exception"), ctx.program.func(f"{BASESESSION}._exception_from_message")
+    for fn_, key, want_uri, what in ((pub, ("publish", "encode"), pub.params()[1], "the topic published to"), (call_, ("call", "encode"), call_.params()[1], "the procedure called"),
+                                     (efm, ("_exception_from_message", "decode"), f"{efm.params()[1]}.error", "the error URI of the ERROR message")):
+        got = uri_texts(key, fn_)
+        ctx.ob(f"{key[0]}: payload {key[1]}d under {what}", bool(got) and all(t == want_uri for t, _ in got), f"URI argument {[t for t, _ in got]}", fn_.loc())
+    got = uri_texts(("_message_from_exception", "encode"), mfe)
+    errs = {canon_text(mfe, c.args[2]) for c in calls_in(mfe.node) if call_name(c) == "message.Error" and len(c.args) >= 3}
+    ctx.ob("_message_from_exception: payload encoded under the error URI the ERROR message carries", bool(got) and len(errs) == 1 and all(t in errs for t, _ in got),
+           f"URI argument {[t for t, _ in got]}, ERROR carries {sorted(errs)}", mfe.loc())
+    # invocation: the URI the arguments were decrypted under is the URI every result / progressive result is encrypted under, and it is the invoked procedure
+    dec_uri = uri_texts(("onMessage/Invocation", "decode"))
+    enc_uri = uri_texts(("success", "encode")) + uri_texts(("progress", "encode"))
+    names = {t for t, _ in dec_uri}
+    ok = len(names) == 1 and all(t in names for t, _ in enc_uri) and bool(enc_uri)
+    ctx.ob("invocation: results and progressive results are encrypted under the same URI the invocation was decrypted under", ok,
+           f"decoded under {sorted(names)}, results encoded under {sorted({t for t, _ in enc_uri})}", om.fn.loc())
+    if len(names) == 1:
+        nm = next(iter(names))
+        arm = [x for x in ast.walk(om.fn.node) if isinstance(x, ast.If) and norm.atoms(x.test, True, om.res) == [("isinst", "msg", "message.Invocation", True)]]
+        defs = [s_ for a_ in arm for s_ in ast.walk(a_) if isinstance(s_, ast.Assign) and any(norm.text(t_) == nm for t_ in s_.targets)]
+        okd = len(defs) == 1 and " ".join((norm.text(defs[0].value) or "").split()) in ("msg.procedure or registration.procedure",)
+        ctx.ob("invocation: that URI is the invoked procedure (INVOCATION.details.procedure for pattern registrations, else the registered URI)", okd or nm in ("msg.procedure or registration.procedure",),
+               f"{nm} = {[norm.text(d.value) for d in defs]}", om.fn.loc())
     ctx.ob("no other encode/decode sites", set(found) == set(expected), f"unexpected: {sorted(set(found) - set(expected))}", om.fn.loc())
     kr = ctx.program.cls("autobahn.wamp.cryptobox.KeyRing")
     gb = kr.methods["_get_box"]
